@@ -636,6 +636,88 @@ fn run_mapcase(idx: u64, acc: &mut Acc) {
     }
 }
 
+// ---------------------------------------------------------------------------
+// elements of every type (the list families above use ints)
+
+fn typed_elems() -> Vec<V> {
+    vec![V::s("a"), V::s(""), V::list(&[V::Int(1)]), V::list(&[]), V::map(&[("k", V::Int(1))]), V::Null, V::Dbl(1.5), V::Bool(false), V::Bytes(vec![97]), V::UInt(0)]
+}
+
+const TYPED_MACROS: [&str; 9] = [
+    "$.filter(x, true)",
+    "$.filter(x, x)",
+    "$.map(x, x)",
+    "$.map(x, [x])",
+    "$.map(x, x, type(x) == string)",
+    "$.all(x, x == x)",
+    "$.exists(x, x)",
+    "$.exists_one(x, !x)",
+    "$.reduce(acc, x, acc + [x], [])",
+];
+
+fn run_typed(idx: u64, acc: &mut Acc) {
+    let el = typed_elems();
+    let n = el.len() as u64;
+    // idx -> (list of length 0..3, macro, literal/bound)
+    let d = unrank(idx, &[1 + n + n * n + n * n * n, TYPED_MACROS.len() as u64, 2]);
+    let mut li = d[0];
+    let mut l: Vec<V> = Vec::new();
+    let mut len = 0;
+    let mut block = 1u64;
+    while li >= block {
+        li -= block;
+        block *= n;
+        len += 1;
+    }
+    for _ in 0..len {
+        l.push(el[(li % n) as usize].clone());
+        li /= n;
+    }
+    let m = TYPED_MACROS[d[1] as usize];
+    let lit = d[2] == 0;
+    let lv = V::List(l.clone());
+    let mut b = BindContext::new();
+    let ls = if lit {
+        lv.lit().unwrap()
+    } else {
+        b.bind_param("l", lv.to_cel());
+        "l".to_string()
+    };
+    let src = m.replace('$', &ls);
+    let t = |v: &V| refmodel::truthy(v);
+    let want: V = match d[1] {
+        0 => lv.clone(),
+        1 => V::List(l.iter().filter(|v| t(v)).cloned().collect()),
+        2 => lv.clone(),
+        3 => V::List(l.iter().map(|v| V::list(&[v.clone()])).collect()),
+        4 => V::List(l.iter().filter(|v| t(v)).map(|v| V::Bool(matches!(v, V::Str(_)))).collect()),
+        5 => V::Bool(true),
+        6 => V::Bool(l.iter().any(|v| t(v))),
+        7 => V::Bool(l.iter().filter(|v| !t(v)).count() == 1),
+        _ => lv.clone(),
+    };
+    let got = real::eval_with(&src, &b);
+    acc.eval();
+    acc.class(&got.class());
+    acc.nontrivial(&("typed", idx));
+    if !matches!(got.value(), Some(g) if g.same(&want)) {
+        acc.violation(
+            &format!("typed-elements `{}` [{}] differs-from-fold", m, if lit { "literal-list" } else { "bound-list" }),
+            json!({"src": src, "list": lv.show()}),
+            want.show(),
+            got.show(),
+        );
+    }
+    if acc.wants_sample() {
+        acc.sample(json!({"src": src, "expected": want.show(), "observed": got.show()}));
+    }
+}
+
+fn typed_size() -> u64 {
+    let n = typed_elems().len() as u64;
+    (1 + n + n * n + n * n * n) * TYPED_MACROS.len() as u64 * 2
+}
+
 fn _unused(_: BTreeMap<String, V>) {}
 
 pub fn replay_families(t: Tier) -> Vec<Family<'static>> {
@@ -643,6 +725,7 @@ pub fn replay_families(t: Tier) -> Vec<Family<'static>> {
     vec![
         Family::new("list-macros", sp.size(), move |i, a| sp.run(i, a)),
         Family::new("map-key-order", 15 * MAPMACROS.len() as u64, run_mapcase),
+        Family::new("typed-elements", typed_size(), run_typed),
     ]
 }
 
@@ -650,7 +733,7 @@ pub fn run(t: Tier) -> i32 {
     let mut rep = Report::new(ID, t, "exploration");
     let sp = Space::new(t);
     rep.rule = format!(
-        "list-macros: {} lists (all lists of length <= {} over {{0,1,2}}, all 0/1 lists up to length {}, lists of length {} with at most {} ones - beyond the call-depth limit of 32) x {} macro forms (all/exists/exists_one/filter x 11 bodies, map/2 x 4, map/3 x 20, reduce x 6; bodies read the loop variable, an outer variable, a stored program, inner macros re-using the name or reading the outer loop variable, a call-recording function, fail at the element 1, or read an unbound name) x literal/bound list x outer binding of the loop variable name absent/100 x the name read before/after the macro; the result and the exact log of recorded calls (visiting order and stopping point) must equal the defining fold, and the caller's binding of the name must be unchanged. map-key-order: every non-empty subset of 4 keys x 5 macro forms, the map built in every insertion order as literal, literal with variable values, bound HashMap and JSON, evaluated twice each: a permutation of the images and always the same permutation. Non-trivial = every case; distinct by (index, form)",
+        "list-macros: {} lists (all lists of length <= {} over {{0,1,2}}, all 0/1 lists up to length {}, lists of length {} with at most {} ones - beyond the call-depth limit of 32) x {} macro forms (all/exists/exists_one/filter x 11 bodies, map/2 x 4, map/3 x 20, reduce x 6; bodies read the loop variable, an outer variable, a stored program, inner macros re-using the name or reading the outer loop variable, a call-recording function, fail at the element 1, or read an unbound name) x literal/bound list x outer binding of the loop variable name absent/100 x the name read before/after the macro; the result and the exact log of recorded calls (visiting order and stopping point) must equal the defining fold, and the caller's binding of the name must be unchanged. map-key-order: every non-empty subset of 4 keys x 5 macro forms, the map built in every insertion order as literal, literal with variable values, bound HashMap and JSON, evaluated twice each: a permutation of the images and always the same permutation. typed-elements: all lists of length <= 3 over 10 elements of every type (strings, lists, maps, null, double, bool, bytes, uint) x 9 macro forms whose result is determined by identity and truthiness, literal and bound. Non-trivial = every case; distinct by (index, form)",
         sp.lists.len(),
         t.pick(5, 6),
         t.pick(8, 10),
@@ -660,6 +743,7 @@ pub fn run(t: Tier) -> i32 {
     );
     rep.run_family(Family::new("list-macros", sp.size(), |i, a| sp.run(i, a)));
     rep.run_family(Family::new("map-key-order", 15 * MAPMACROS.len() as u64, run_mapcase));
+    rep.run_family(Family::new("typed-elements", typed_size(), run_typed));
     rep.assumptions = vec![
         "sortedness of the map key order is not demanded, only that it is the same for every map with that key set".into(),
         "when the loop-variable name is read outside the macro and is unbound the expression must fail; whether the macro body ran is not fixed".into(),
